@@ -9,4 +9,5 @@ import PeptVerif.Props.C01
 #print axioms Pept.parse_serialize
 #print axioms Pept.serialize_fixpoint
 #print axioms Pept.parse_serialize_multi_partial
+#print axioms Pept.parse_joined
 #print axioms Pept.parse_serialize_crosslink_false
